@@ -78,6 +78,7 @@ class ProtocolContext:
 
         # TODO: pass this over as an instance paramater
         self._send_fnc: Callable[[Command], Coroutine[Any, Any, None]] = None  # type: ignore[assignment]
+        self._send_fncs: dict[_FutureT, Callable[[Command], Coroutine[Any, Any, None]]] = {}
 
         self._cmd: Command | None = None
         self._qos: QosParams | None = None
@@ -323,7 +324,6 @@ class ProtocolContext:
         priority: Priority,
         qos: QosParams,
     ) -> Packet:
-        self._send_fnc = send_fnc  # TODO: REMOVE: make per Context, not per Command
 
         if isinstance(self._state, Inactive):
             raise exc.ProtocolSendFailed(f"{self}: Send failed (no active transport?)")
@@ -336,6 +336,10 @@ class ProtocolContext:
         except Full as err:
             fut.cancel()
             raise exc.ProtocolSendFailed(f"{self}: Send buffer overflow") from err
+
+        # each command is written by its own caller's function (it holds the caller's
+        self._send_fncs[fut] = send_fnc  # num_repeats/gap_duration), also when re-sent
+        fut.add_done_callback(lambda f: self._send_fncs.pop(f, None))
 
         if isinstance(self._state, IsInIdle):
             self._loop.call_soon_threadsafe(self._check_buffer_for_cmd)
@@ -393,6 +397,7 @@ class ProtocolContext:
 
             self._cmd_tx_count = 0
             self._cmd_tx_limit = min(self._qos.max_retries, self.max_retry_limit) + 1
+            self._send_fnc = self._send_fncs.get(self._fut, self._send_fnc)
 
             assert isinstance(self._fut, asyncio.Future)  # mypy hint
             if self._fut.done():  # e.g. TimeoutError
